@@ -46,6 +46,12 @@ CHECKS = {
  "C06": dict(cat="fault_enumeration", tech="enumeration of leader-removal points (script item moved to every choice point), watch-event loss subsets and transient candidate faults, on the real code in virtual time; exact vacancy instants from the reference store log", ref="DESIGN §5 C06",
    note="N in {2,3}; K1,K2; removal by stop(+/-DeleteKey), crash, permanent partition, outside delete; presets deliver-all/drop-all plus per-event drops up to d; candidate Watch/Get/Create failures up to d consecutive; the bound is 600ms plus latencies actually injected into the candidates' operations (an upper bound).",
    text="Every vacancy instant (tombstone applied or write time + TTL) during which a started, non-stopped, connected instance exists is followed by an acquisition within 600ms + injected latency, also when no watch notification is delivered, after Watch/Get/Create failures, and after the candidate's watch was lost; a run never ends with an older vacancy."),
+ "C10": dict(cat="exploration", tech="exhaustive enumeration of the priority/flag assignment lattice x start orders, each combined with deviation-bounded exploration of the takeover's Get/Update against the incumbent's heartbeat on the real code", ref="DESIGN §5 C10",
+   note="Priorities {0,1,2}, takeover on/off (valid combinations), 2 and 3 instances (one 4-instance scenario in the thorough tier; 5 instances not run), 2-3 start orders; safety under latencies < H/2 with d<=1 (quick) / 2 (thorough); promptness under latencies <= H/10 with the challenger starting 5ms before the incumbent's heartbeat.",
+   text="Every replacement of a live foreign record in every explored execution is by a takeover-enabled instance whose priority is strictly greater than the priority stored in the replaced record; in the promptness scenarios the highest-priority takeover-enabled instance holds the record and claims within 3H (+ injected latency) of its Start, the deposed leader stops claiming within H+2T, and at the end of the run the only claimant has the highest priority."),
+ "C13": dict(cat="exploration", tech="finite product of payload alphabet x role x outside action, the action placed at every choice point by deviation-bounded exploration on the real code; crash/spin/stuck/goroutine guards plus store-log oracle", ref="DESIGN §5 C13",
+   note="50 record shapes; roles: plain follower+leader, takeover candidate with equal / higher priority; actions put, delete, put-then-delete; d<=1; 1 MiB values only on the default schedule in the quick tier. Unbounded recursion is observed through its zero-time operation storm (spin guard: >64 store ops of one instance at one virtual instant).",
+   text="No explored execution kills the worker, storms the store without virtual time advancing, leaves a stuck goroutine, blocks Status() or grows goroutines without bound; every replacement of a live foreign record is a legitimate preemption of a parseable record; every promotion follows an acquisition write of the claimer; a leader whose record was rewritten or deleted is demoted within H+2T."),
 }
 NA_DEFAULT = "check not built yet in this round (planned in DESIGN.md §9a); not claimed until it runs alarm-free"
 
